@@ -1,8 +1,243 @@
 import MetadorModel.Py.DrvLib
-/-! Driver stub (to be filled in). -/
-open MetadorModel
+import MetadorModel.Model.Container
+/-!
+Driver for the container model (C06, C07, C20).
 
-def step (s : Unit) : List String → Unit × String
-  | _ => (s, "bad-op")
+Input lines (tokens separated by one space; names come from the safe alphabet `[a-z0-9._-]`,
+paths are absolute `/a/b`, `/` is the root, `-` stands for "no version"):
 
-def main : IO Unit := Drv.run () step
+    env-schema <name> <ver> <T|F aux> <pkgname> <pkgver> <parent eps, comma separated>
+    env-pkg <pkgname> <pkgver> <schema eps, comma separated | ->
+    init
+    grp <path> | ds <path> <tok> | del <path> | copy <src> <dst> <T|F> | move <src> <dst>
+    meta <path> <sub,sub,…>      sub = set:<name>:<ver>:<tok|!bad> | del:<name> | get:<name>:<ver>
+    reopen | patch
+    dump                          raw tree as JSON list of [path, content]
+    caches <unknown-name>         cache observations as JSON object
+    obs <item,item,…| ->          item = q:<start>:<name>:<ver> | g:<node>:<name>:<ver>
+
+uuids are printed as `{u<n>}`; the harness renames them by first appearance on both sides.
+-/
+open MetadorModel MetadorModel.Container
+
+def parseVer (s : String) : Option Ver :=
+  match s.splitOn "." with
+  | [a, b, c] => do
+    let x ← a.toNat?
+    let y ← b.toNat?
+    let z ← c.toNat?
+    pure (x, y, z)
+  | _ => none
+
+def parseOptVer (s : String) : Option (Option Ver) :=
+  if s == "-" then some none else (parseVer s).map some
+
+def showVer (v : Ver) : String := s!"{v.1}.{v.2.1}.{v.2.2}"
+def showEp (r : SRef) : String := r.name ++ "__" ++ showVer r.ver
+def showPkg (p : PkgId) : String := p.name ++ "__" ++ showVer p.ver
+def showU (u : Nat) : String := "{u" ++ toString u ++ "}"
+
+def parseEp (s : String) : Option SRef :=
+  match s.splitOn "__" with
+  | [n, v] => (parseVer v).map fun v => ⟨n, v⟩
+  | _ => none
+
+def parseEps (s : String) : Option (List SRef) :=
+  if s == "-" then some [] else (s.splitOn ",").mapM parseEp
+
+def parsePath (s : String) : Option Path :=
+  if s == "/" then some []
+  else if !s.startsWith "/" then none
+  else
+    let segs := (s.drop 1).toString.splitOn "/"
+    if segs.any (· == "") then none else some (segs.map Key.user)
+
+def showKey : Key → String
+  | .user s => s
+  | .metaDir s => "metador_meta_" ++ s
+  | .obj r u => showEp r ++ "=" ++ showU u
+  | .toc => "metador_container"
+  | .links => "links"
+  | .schemas => "schemas"
+  | .packages => "packages"
+  | .version => "version"
+  | .uuid => "uuid"
+  | .ep r => showEp r
+  | .link u => showU u
+  | .jsonschema => "jsonschema.json"
+  | .compat => "compat"
+  | .pkg p => showPkg p
+
+def showPath (p : Path) : String :=
+  if p.isEmpty then "/" else String.join (p.map fun k => "/" ++ showKey k)
+
+def jstr (s : String) : String := "\"" ++ s ++ "\""   -- safe alphabet only
+def jarr (l : List String) : String := "[" ++ ",".intercalate l ++ "]"
+def jobj (l : List (String × String)) : String :=
+  "{" ++ ",".intercalate (l.map fun kv => jstr kv.1 ++ ":" ++ kv.2) ++ "}"
+
+def showVal (p : Path) : Val → String
+  | .data tok => (if inMeta p then "o:" else "d:") ++ tok
+  | .target q => "l:" ++ showPath q
+  | .compat l => "c:" ++ ",".intercalate (l.map showEp)
+  | .jsonschema r => "j:" ++ showEp r
+  | .pkginfo q pl => "p:" ++ showPkg q ++ ":" ++ ",".intercalate (pl.map showEp)
+  | .text s => "t:" ++ s
+
+def showNode (p : Path) : Node → String
+  | .grp => "g"
+  | .ds v => showVal p v
+
+def showErr : Err → String
+  | .key => "KeyError"
+  | .value => "ValueError"
+  | .type => "TypeError"
+  | .validation => "ValidationError"
+  | .other => "Error"
+
+structure DSt where
+  env : Env := ⟨[], []⟩
+  st : St := {}
+
+def dump (s : St) : String :=
+  jarr (s.raw.map fun e => jarr [jstr (showPath e.1), jstr (showNode e.1 e.2)])
+
+def dedup (l : List String) : List String :=
+  l.foldl (fun acc x => if acc.contains x then acc else acc ++ [x]) []
+
+def caches (d : DSt) (unknown : String) : String :=
+  let c := d.st.c
+  let refs := d.env.schemas.map (·.ref)
+  let names := dedup (refs.map (·.name)) ++ [unknown]
+  let eps (l : List SRef) := jarr (l.map fun r => jstr (showEp r))
+  let children :=
+    (refs.map fun r => (showEp r, eps (tocChildren c r))) ++
+    (names.map fun n => (n, eps (tocChildrenByName c n)))
+  let parentPath := refs.map fun r =>
+    (showEp r, match alGet c.parents r with
+      | some l => eps l
+      | none => "null")
+  let provider := refs.map fun r =>
+    (showEp r, match ((alGet c.providers r).getD []).head? with
+      | some p => if (alGet c.pkginfos p).isSome then jstr (showPkg p) else "null"
+      | none => "null")
+  let versions := names.map fun n => (n, eps (tocVersions c n none))
+  let contains := refs.map fun r => (showEp r, if r ∈ c.schemas then "true" else "false")
+  jobj [
+    ("schemas", eps c.schemas),
+    ("len", toString c.schemas.length),
+    ("packages", jarr (c.pkginfos.map fun e => jstr (showPkg e.1 ++ ":" ++ ",".intercalate (e.2.map showEp)))),
+    ("children", jobj children),
+    ("parent_path", jobj parentPath),
+    ("provider", jobj provider),
+    ("versions", jobj versions),
+    ("contains", jobj contains),
+    ("links", jarr (c.tocPath.map fun e => jarr [jstr (showU e.1), jstr (showPath e.2)]))]
+
+def obsItem (d : DSt) (item : String) : Option String :=
+  match item.splitOn ":" with
+  | [kind, node, name, ver] => do
+    let p ← parsePath node
+    let v ← parseOptVer ver
+    let s := d.st
+    match nodeKind s p with
+    | none => some (kind ++ "=nonode")
+    | some k =>
+      if kind == "q" then
+        match tocQuery s p name v with
+        | .ok l => some ("q=" ++ ",".intercalate (l.map showPath))
+        | .error e => some ("q=err:" ++ showErr e)
+      else if kind == "g" then
+        let h := openHandle s p k
+        match h.getAll d.env s name v with
+        | .error e => some ("g=err:" ++ showErr e)
+        | .ok [] => some "g=none"
+        | .ok (r :: rs) =>
+          let exact := (h.getRaw name v).isSome
+          let l := if exact then [r] else r :: rs
+          some ("g=obj:" ++ "/".intercalate (l.map fun x => showEp x.stored.schema ++ "@" ++ x.tok))
+      else none
+  | _ => none
+
+def parseSub (s : String) : Option MetaOp :=
+  match s.splitOn ":" with
+  | ["set", n, v, tok] => do
+    let v ← parseOptVer v
+    pure (.set n v (tok != "!bad") tok)
+  | ["del", n] => some (.del n)
+  | ["get", n, v] => do
+    let v ← parseOptVer v
+    pure (.get n v)
+  | _ => none
+
+def showOutcome : Outcome → String
+  | .done => "ok"
+  | .found true => "some"
+  | .found false => "none"
+  | .raised e => "err:" ++ showErr e
+
+def treeStatus (r : Res Unit) : String :=
+  match r.1 with
+  | .ok _ => "ok"
+  | .error _ => "err"
+
+def parseBool (s : String) : Option Bool :=
+  if s == "T" then some true else if s == "F" then some false else none
+
+def runOp (d : DSt) (op : Op) : DSt × String :=
+  let r := step d.env op d.st
+  ({ d with st := r.2 }, treeStatus r)
+
+def step' (d : DSt) : List String → DSt × String
+  | ["env-schema", name, ver, aux, pkg, pkgver, parents] =>
+    match parseVer ver, parseBool aux, parseVer pkgver, parseEps parents with
+    | some v, some a, some pv, some ps =>
+      ({ d with env := { d.env with schemas := d.env.schemas ++ [⟨⟨name, v⟩, ps, ⟨pkg, pv⟩, a⟩] } }, "ok")
+    | _, _, _, _ => (d, "bad-op")
+  | ["env-pkg", pkg, pkgver, refs] =>
+    match parseVer pkgver, parseEps refs with
+    | some pv, some rs => ({ d with env := { d.env with pkgs := d.env.pkgs ++ [(⟨pkg, pv⟩, rs)] } }, "ok")
+    | _, _ => (d, "bad-op")
+  | ["init"] => ({ d with st := initSt }, "ok")
+  | ["grp", p] =>
+    match parsePath p with
+    | some p => runOp d (.createGroup p)
+    | none => (d, "bad-op")
+  | ["ds", p, tok] =>
+    match parsePath p with
+    | some p => runOp d (.createDataset p tok)
+    | none => (d, "bad-op")
+  | ["del", p] =>
+    match parsePath p with
+    | some p => runOp d (.delete p)
+    | none => (d, "bad-op")
+  | ["copy", a, b, wm] =>
+    match parsePath a, parsePath b, parseBool wm with
+    | some a, some b, some wm => runOp d (.copy a b wm)
+    | _, _, _ => (d, "bad-op")
+  | ["move", a, b] =>
+    match parsePath a, parsePath b with
+    | some a, some b => runOp d (.move a b)
+    | _, _ => (d, "bad-op")
+  | ["meta", p, subs] =>
+    match parsePath p, (subs.splitOn ",").mapM parseSub with
+    | some p, some ops =>
+      match nodeKind d.st p with
+      | none => (d, "err")
+      | some k =>
+        let trace := (metaSeqTrace d.env (openHandle d.st p k) ops d.st).1
+        ({ d with st := (step d.env (.onMeta p ops) d.st).2 }, "+".intercalate (trace.map showOutcome))
+    | _, _ => (d, "bad-op")
+  | ["reopen"] => runOp d .reopen
+  | ["patch"] => runOp d .patch
+  | ["dump"] => (d, dump d.st)
+  | ["caches", unknown] => (d, caches d unknown)
+  | ["obs", items] =>
+    if items == "-" then (d, "")
+    else
+      match (items.splitOn ",").mapM (obsItem d) with
+      | some l => (d, "|".intercalate l)
+      | none => (d, "bad-op")
+  | _ => (d, "bad-op")
+
+def main : IO Unit := Drv.run ({} : DSt) step'
